@@ -65,6 +65,17 @@ Reason(r) ==
                    ELSE "C05:selection")
            ELSE IF post # pre THEN "C05:create-changed-pool"
            ELSE "ok"
+    [] r.ev = "create_execute" ->      \* Visor.CreateAndExecuteBlock: the same selection, executed in the same commit
+        LET blk == CreateBlock(s, TxMap(r.txns), Par(r), locked, r.maxBlock, r.maxTxns)
+            exp == [i \in DOMAIN blk |-> blk[i].hash]
+        IN IF (r.res = "ok") # (Len(exp) > 0) THEN "C05:block-or-none"
+           ELSE IF r.res = "ok" /\ r.hashes # exp THEN
+                  (IF Rng(r.hashes) = Rng(exp) THEN "C05:order"
+                   ELSE IF Rng(r.hashes) \subseteq Rng(exp) THEN "C05:conflict-choice-dropped"
+                   ELSE "C05:selection")
+           ELSE IF r.res = "ok" /\ post # { e \in pre : e.hash \notin Rng(exp) } THEN "C06:pool-after-own-block"    \* what the block holds leaves the pool, nothing else changes
+           ELSE IF r.res # "ok" /\ post # pre THEN "C05:create-changed-pool"
+           ELSE "ok"
     [] OTHER -> "unknown-event"
 
 Conforms == LET r == Reason(Recs[l]) IN r = "ok" \/ PrintT(<<"MISMATCH", "rec", l, Recs[l].ev, r>>)
